@@ -381,6 +381,13 @@ func init() {
 		e.mutexUnlock(args[0].(*Value), false)
 		return nil
 	}
+	intrinsics["(*sync.Mutex).TryLock"] = func(e *Engine, fr *frame, fn *ssa.Function, args []Value) Value {
+		return e.st.Bool(e.mutexTryLock(args[0].(*Value), true))
+	}
+	intrinsics["(*sync.RWMutex).TryLock"] = intrinsics["(*sync.Mutex).TryLock"]
+	intrinsics["(*sync.RWMutex).TryRLock"] = func(e *Engine, fr *frame, fn *ssa.Function, args []Value) Value {
+		return e.st.Bool(e.mutexTryLock(args[0].(*Value), false))
+	}
 	intrinsics["(*sync.WaitGroup).Add"] = func(e *Engine, fr *frame, fn *ssa.Function, args []Value) Value {
 		e.wgAdd(args[0].(*Value), int(e.cint(args[1], "WaitGroup.Add delta")))
 		return nil
